@@ -434,9 +434,9 @@ seq_t dtw_warping_paths{{ suffix }}{{ suffix2 }}(seq_t *wps,
         rvalue = wps[loc_base + l2 - loc_cb];
     } else if (return_dtw) {
         seq_t mir_value = {{infinity}};
-        idx_t mir_rel = 0;
+        idx_t mir_rel = l1;  // nothing is marked if no candidate is found
         seq_t mic_value = {{infinity}};
-        idx_t mic = 0;
+        idx_t mic = l2;  // nothing is marked if no candidate is found
         // Find smallest value in last column
         if (settings->psi_1e != 0) {
             for (ri=l1-1; ri>l1-settings->psi_1e-2 && ri>=0; ri--) {
